@@ -57,10 +57,15 @@ class _TempfileProxy(object):
 
 
 def _kwargs(spec):
+    opt = spec.get("options", "default")
+    if opt == "no-inference":
+        return {"disable_infer_genes": True, "disable_infer_transcripts": True}
+    if opt == "force_gff":
+        return {"force_gff": True}
     return {}
 
 
-def _import_worker(idx, inp, out, tmpdir, start_barrier, tf_barrier, offset, queue):
+def _import_worker(idx, inp, out, tmpdir, start_barrier, tf_barrier, offset, queue, kwargs=None):
     try:
         os.environ["TMPDIR"] = tmpdir
         tempfile.tempdir = tmpdir
@@ -75,7 +80,7 @@ def _import_worker(idx, inp, out, tmpdir, start_barrier, tf_barrier, offset, que
             pass
         time.sleep(offset / 1000.0)
         t0 = time.monotonic()
-        db = gffutils.create_db(inp, out)
+        db = gffutils.create_db(inp, out, **(kwargs or {}))
         t1 = time.monotonic()
         snap = dbsnap.snapshot(db)
         db.conn.close()
@@ -147,6 +152,10 @@ class ConfigLeg(object):
             for sp in inputs:
                 if sp["gtf"] and draw(st.integers(0, 3)) == 0:
                     sp["cds_only"] = True  # a GTF without exon lines: nothing to infer, still an intermediate file
+                if sp["gtf"]:
+                    sp["options"] = draw(st.sampled_from(["default", "default", "no-inference", "force_gff"]))
+                elif draw(st.integers(0, 3)) == 0:
+                    sp["shallow"] = draw(st.sampled_from(["genes-only", "two-level"]))  # GFF3 without grandchildren
             return {"inputs": inputs, "procs": n, "assign": assign, "offsets_ms": offsets,
                     "readers": draw(st.sampled_from([2, 4, 8, 16, 32])),
                     "same_basename": draw(st.booleans())}
@@ -176,19 +185,25 @@ class ConfigLeg(object):
         for i, spec in enumerate(case["inputs"]):
             p = os.path.join(outdir, "in%d.txt" % i)
             text = make_annotation(spec)
+            if spec.get("shallow") == "genes-only":
+                text = "\n".join(l for l in text.splitlines() if "\tgene\t" in l) + "\n"
+            elif spec.get("shallow") == "two-level":
+                text = "\n".join(l for l in text.splitlines() if "\tgene\t" in l or "\tmRNA\t" in l) + "\n"
             if spec.get("cds_only"):
                 text = "\n".join(l for l in text.splitlines() if "\texon\t" not in l) + "\n"
             with open(p, "w") as fh:
                 fh.write(text)
             paths.append(p)
-            db = gffutils.create_db(p, os.path.join(outdir, "solo%d.db" % i))
+            db = gffutils.create_db(p, os.path.join(outdir, "solo%d.db" % i), **_kwargs(spec))
             solo.append(dbsnap.snapshot(db))
             db.conn.close()
         leftovers = [n for n in os.listdir(ctx.tmp) if n not in ("shared_tmp", "out")]
         n = case["procs"]
         mp = multiprocessing.get_context("fork")
         start_barrier = mp.Barrier(n)
-        tf_barrier = mp.Barrier(n)
+        # only imports that create an intermediate file meet at the temp-file barrier
+        n_tf = sum(1 for k in range(n) if case["inputs"][case["assign"][k]].get("options") != "no-inference")
+        tf_barrier = mp.Barrier(max(1, n_tf))
         queue = mp.Queue()
         procs = []
         outs = []
@@ -201,7 +216,7 @@ class ConfigLeg(object):
         for k in range(n):
             out = outs[k]
             p = mp.Process(target=_import_worker, args=(k, paths[case["assign"][k]], out, shared_tmp, start_barrier, tf_barrier,
-                                                        case["offsets_ms"][k], queue))
+                                                        case["offsets_ms"][k], queue, _kwargs(case["inputs"][case["assign"][k]])))
             p.daemon = False
             procs.append(p)
         for p in procs:
